@@ -12,19 +12,21 @@
    buf (BitBuf)                                dbb
    w                                           ddest                                        *)
 From Coq Require Import ZArith.
-From Verif Require Export Encode WriterSM.
+From Verif Require Export Encode Trace WriterSM.
 Open Scope N_scope.
 
-Record dest := mkdest { dchunks : list (list N) (* newest first *); dcalls : N; dfail : option N }.
-Definition dest_new (fail : option N) : dest := mkdest [] 0 fail.
+Record dest := mkdest { dchunks : list (list N) (* newest first *); dcalls : N; dfail : option N;
+                        dtrace : list event (* ghost: what the compressor meant to emit, newest first *) }.
+Definition dest_new (fail : option N) : dest := mkdest [] 0 fail [].
+Definition dest_event (d : dest) (e : event) : dest := mkdest (dchunks d) (dcalls d) (dfail d) (e :: dtrace d).
 
 (* one io.Writer.Write call: (new destination, failed) *)
 Definition dest_write (d : dest) (chunk : list N) : dest * bool :=
   let n := dcalls d + 1 in
   match dfail d with
-  | Some k => if k <=? n then (mkdest (dchunks d) n (dfail d), true)
-              else (mkdest (chunk :: dchunks d) n (dfail d), false)
-  | None => (mkdest (chunk :: dchunks d) n (dfail d), false)
+  | Some k => if k <=? n then (mkdest (dchunks d) n (dfail d) (dtrace d), true)
+              else (mkdest (chunk :: dchunks d) n (dfail d) (dtrace d), false)
+  | None => (mkdest (chunk :: dchunks d) n (dfail d) (dtrace d), false)
   end.
 
 (* write chunks in order, stopping at the first failure *)
@@ -66,7 +68,7 @@ Definition dyn_accumulate (c : dyn) (data : list N) : dyn * nat * bool :=
 (* encodeBlock(last): emit the pending tokens as one dynamic block; clears them *)
 Definition dyn_encode_block (c : dyn) (last : bool) : dyn * bool :=
   let '(chunks, bb) := encode_block (dsync c) (frev (dtoks c)) last (dbb c) in
-  let '(d1, failed) := dest_write_all (ddest c) chunks in
+  let '(d1, failed) := dest_write_all (dest_event (ddest c) (EBlock (frev (dtoks c)) last)) chunks in
   if failed
   then (mkdyn (dW c) (dmask c) (dsync c) (dbuf c) (didx c) (dproc c) (dtable c) (dtoks c) (dntok c) bb d1 (doob c), true)
   else (mkdyn (dW c) (dmask c) (dsync c) (dbuf c) (didx c) (dproc c) (dtable c) [] 0 bb d1 (doob c), false).
@@ -91,7 +93,7 @@ Fixpoint dyn_compress_loop (fuel : nat) (c : dyn) (flush final : bool) : dyn * b
 Definition dyn_compress_block (c : dyn) (flush final : bool) : dyn * bool :=
   if final && (lenN (dbuf c) =? 0) then
     let '(chunk, bb) := bb_take (bb_empty_block true (dbb c)) in
-    let '(d1, failed) := dest_write (ddest c) chunk in
+    let '(d1, failed) := dest_write (dest_event (ddest c) EFinalEmpty) chunk in
     (mkdyn (dW c) (dmask c) (dsync c) (dbuf c) (didx c) (dproc c) (dtable c) (dtoks c) (dntok c) bb d1 (doob c), failed)
   else dyn_compress_loop (S (S (length (dbuf c)))) c flush final.
 
@@ -100,7 +102,7 @@ Definition dyn_flush (c : dyn) : dyn * bool :=
   if failed then (c1, true)
   else
     let '(chunk, bb) := bb_take (bb_empty_block false (dbb c1)) in
-    let '(d1, failed1) := dest_write (ddest c1) chunk in
+    let '(d1, failed1) := dest_write (dest_event (ddest c1) ESync) chunk in
     (mkdyn (dW c1) (dmask c1) (dsync c1) (dbuf c1) (didx c1) (dproc c1) (dtable c1) (dtoks c1) (dntok c1) bb d1 (doob c1), failed1).
 
 Definition dyn_reset (c : dyn) (d : dest) : dyn := dyn_new (dW c) (dmask c) (dsync c) d.
@@ -121,12 +123,12 @@ Definition huf_encode_block (h : huf) (final : bool) : huf * bool :=
   | [] =>
     if final then
       let '(chunk, bb) := bb_take (bb_empty_block true (hbb h)) in
-      let '(d1, failed) := dest_write (hdest h) chunk in
+      let '(d1, failed) := dest_write (dest_event (hdest h) EFinalEmpty) chunk in
       (mkhuf [] bb d1, failed)
     else (h, false)
   | _ =>
     let '(chunks, bb) := hencode_block (hbuf h) final (hbb h) in
-    let '(d1, failed) := dest_write_all (hdest h) chunks in
+    let '(d1, failed) := dest_write_all (dest_event (hdest h) (EHBlock (hbuf h) final)) chunks in
     if failed then (mkhuf (hbuf h) bb d1, true) else (mkhuf [] bb d1, false)
   end.
 
@@ -135,7 +137,7 @@ Definition huf_flush (h : huf) : huf * bool :=
   if failed then (h1, true)
   else
     let '(chunk, bb) := bb_take (bb_empty_block false (hbb h1)) in
-    let '(d1, failed1) := dest_write (hdest h1) chunk in
+    let '(d1, failed1) := dest_write (dest_event (hdest h1) ESync) chunk in
     (mkhuf (hbuf h1) bb d1, failed1).
 
 (* ---- the two LevelCompressors as one type, plugged into writer.go's state machine ---- *)
